@@ -3,11 +3,19 @@
 package channels
 
 import (
+	"bytes"
+	"crypto/sha256"
+	"encoding/hex"
 	"encoding/json"
 	"fmt"
 	"os"
 	"path/filepath"
+	"runtime"
 	"sync"
+
+	"github.com/ipld/go-ipld-prime/codec/dagcbor"
+	"github.com/ipld/go-ipld-prime/datamodel"
+	"github.com/ipld/go-ipld-prime/schema"
 
 	datatransfer "github.com/filecoin-project/go-data-transfer/v2"
 )
@@ -24,6 +32,7 @@ var verifTraceState struct {
 }
 
 type verifTraceLine struct {
+	Kind      string `json:"kind"` // "notify" (announced event + resulting state), or a point line (see verifPoint)
 	Pid       int    `json:"pid"`
 	Inst      string `json:"inst"` // identity of the Channels instance (one per manager lifetime)
 	Seq       uint64 `json:"seq"`
@@ -44,9 +53,49 @@ type verifTraceLine struct {
 	ReqFin    bool   `json:"reqFin"`
 	NV        int    `json:"nv"`
 	NR        int    `json:"nr"`
+	Msg       string `json:"msg"`
+	LastV     string `json:"lastV"` // digest of the last voucher / voucher result ("" if none)
+	LastR     string `json:"lastR"`
+	// point lines only: the argument of the event about to be sent
+	Gid  int64  `json:"gid"` // goroutine issuing the send (a goroutine's next send line implies its previous event is queued)
+	N    int64  `json:"n"`
+	Flag bool   `json:"flag"`
+	Arg  string `json:"arg"`
 }
 
-func verifTrace(c *Channels, evt datatransfer.Event, st datatransfer.ChannelState) {
+// verifDigest renders a typed voucher as type + short digest of its DAG-CBOR form.
+func verifDigest(tv datatransfer.TypedVoucher) string {
+	if tv.Voucher == nil && tv.Type == "" {
+		return ""
+	}
+	var n datamodel.Node = tv.Voucher
+	if tn, ok := n.(schema.TypedNode); ok {
+		n = tn.Representation()
+	}
+	var buf bytes.Buffer
+	if n != nil {
+		if err := dagcbor.Encode(n, &buf); err != nil {
+			return string(tv.Type) + "|err"
+		}
+	}
+	h := sha256.Sum256(buf.Bytes())
+	return string(tv.Type) + "|" + hex.EncodeToString(h[:6])
+}
+
+func verifGid() int64 {
+	var buf [64]byte
+	n := runtime.Stack(buf[:], false)
+	var id int64
+	for _, ch := range buf[len("goroutine "):n] {
+		if ch < '0' || ch > '9' {
+			break
+		}
+		id = id*10 + int64(ch-'0')
+	}
+	return id
+}
+
+func verifOpen() {
 	verifTraceState.once.Do(func() {
 		dir := os.Getenv("VERIF_TRACE")
 		if dir == "" {
@@ -57,6 +106,88 @@ func verifTrace(c *Channels, evt datatransfer.Event, st datatransfer.ChannelStat
 			verifTraceState.f = f
 		}
 	})
+}
+
+var verifEnvOwner sync.Map // ChannelEnvironment -> *Channels (so that the cleanup handler's lines name their instance)
+
+// verifRegisterEnv remembers which Channels instance an environment belongs to.
+func verifRegisterEnv(c *Channels, env ChannelEnvironment) {
+	defer func() { _ = recover() }() // an unhashable environment value (test fakes) is simply not registered
+	if prev, loaded := verifEnvOwner.LoadOrStore(env, c); loaded && prev != c {
+		// the same environment value serves several instances (e.g. pointers to a zero-size test fake): ambiguous
+		verifEnvOwner.Store(env, (*Channels)(nil))
+	}
+}
+
+// VerifGate, when set (tests only), is called at the points named below with the channel id; it may block.
+// Points: "cleanup.before" (before env.CleanupChannel), "cleanup.trigger" (before the handler queues CleanupComplete).
+var VerifGate func(point string, self string, chid datatransfer.ChannelID)
+
+// verifPoint appends a point line: kind "create" (channel record written by CreateNew), "send" (an event is about to be
+// handed to the channel's state machine, logged BEFORE the call), "sent" (that call has returned), "hcleanup" / "hunprotect" (the cleanup handler has
+// called CleanupChannel / Unprotect), "htrigger" (the handler is about to queue CleanupComplete).
+func verifPoint(owner interface{}, self string, kind string, chid datatransfer.ChannelID, code datatransfer.EventCode, args ...interface{}) {
+	if VerifGate != nil {
+		switch kind {
+		case "hcleanup.before":
+			VerifGate("cleanup.before", self, chid)
+		case "htrigger":
+			VerifGate("cleanup.trigger", self, chid)
+		}
+	}
+	if kind == "hcleanup.before" {
+		return
+	}
+	verifOpen()
+	if verifTraceState.f == nil {
+		return
+	}
+	inst := ""
+	switch o := owner.(type) {
+	case *Channels:
+		inst = fmt.Sprintf("%p", o)
+	case ChannelEnvironment:
+		func() {
+			defer func() { _ = recover() }()
+			if c, ok := verifEnvOwner.Load(o); ok && c.(*Channels) != nil {
+				inst = fmt.Sprintf("%p", c)
+			}
+		}()
+	}
+	l := verifTraceLine{Kind: kind, Pid: os.Getpid(), Inst: inst, Chid: chid.String(), Self: self, Initiator: chid.Initiator.String()}
+	if kind == "sent" {
+		l.Gid = verifGid()
+		l.Ev = datatransfer.Events[code]
+	}
+	if kind == "send" {
+		l.Gid = verifGid()
+		l.Ev = datatransfer.Events[code]
+		for _, a := range args {
+			switch v := a.(type) {
+			case uint64:
+				l.N = int64(v)
+			case int64:
+				l.N = v
+			case bool:
+				l.Flag = v
+			case error:
+				l.Arg = v.Error()
+			case datatransfer.TypedVoucher:
+				l.Arg = verifDigest(v)
+			}
+		}
+	}
+	verifTraceState.mu.Lock()
+	defer verifTraceState.mu.Unlock()
+	verifTraceState.seq++
+	l.Seq = verifTraceState.seq
+	if b, err := json.Marshal(l); err == nil {
+		_, _ = verifTraceState.f.Write(append(b, '\n'))
+	}
+}
+
+func verifTrace(c *Channels, evt datatransfer.Event, st datatransfer.ChannelState) {
+	verifOpen()
 	if verifTraceState.f == nil {
 		return
 	}
@@ -64,6 +195,7 @@ func verifTrace(c *Channels, evt datatransfer.Event, st datatransfer.ChannelStat
 	defer verifTraceState.mu.Unlock()
 	verifTraceState.seq++
 	l := verifTraceLine{
+		Kind: "notify", Msg: st.Message(), LastV: verifDigest(st.LastVoucher()), LastR: verifDigest(st.LastVoucherResult()),
 		Pid: os.Getpid(), Inst: fmt.Sprintf("%p", c), Seq: verifTraceState.seq, Chid: st.ChannelID().String(), Self: st.SelfPeer().String(), Initiator: st.ChannelID().Initiator.String(),
 		Ev: datatransfer.Events[evt.Code], Status: datatransfer.Statuses[st.Status()], Ip: st.InitiatorPaused(), RpView: st.ResponderPaused(),
 		Queued: st.Queued(), Sent: st.Sent(), Received: st.Received(), QIdx: st.QueuedCidsTotal(), SIdx: st.SentCidsTotal(), RIdx: st.ReceivedCidsTotal(),
